@@ -15,17 +15,19 @@ Design specs (spec/):
                      exact integrals of all monomials over it; invariants ChildrenTile, TrimSplits, RegionInside,
                      RefVolume.
 Bindings to the code:
-  (T)    the structure of the live base samples (points per element; located samples) is exported and is the model's
-         constant table (MCSampleAlg.tla; the transcription of Topology._sample must predict the exported structure);
-         GaussTable.tla: the decomposition of every live reference (child transforms, mosaic simplices) is exported and
-         TLC decides that it tiles exactly the region the model assigns to the configuration.
+  (T)    the structure of the live base samples (points per element, the PointsSequence container expression that built
+         them, located samples) is exported and is the model's constant table (MCSampleAlg.tla); the invariants ContainerInv
+         (model of pointsseq.py's chain / repeat / take / product) and LocatedInv (transcription of Topology._sample) state
+         that the model predicts the exported structure.
+         MCGaussOracle.tla, invariant Decomposition: the decomposition of every live reference (child transforms, mosaic
+         simplices) is exported and TLC decides that it tiles exactly the region the model assigns to the configuration.
   (S->C) every SampleAlg state is rebuilt from the real base samples through +, *, take_elements, subset, zip and
          compared with the model: nelems, npoints, getindex, eval of element index and coordinates of every space row by
          row, integrate against the sum over the model's points of (referenced weights) x value (c09_sample.py);
          every GaussOracle configuration is built with the element API and its Gauss / uniform / bezier rules are compared
          with the model's exact monomial integrals, region membership and volume (c09_gauss.py).
 Spec mutants (wrong strides in _Mul.getindex, missing offset in _Add.getindex, take_elements that does not compose, zip
-without weights, wrong child map, wrong simplex integral) must violate the invariants.
+without weights, unsorted take_elements, wrong child map, wrong simplex integral) must violate the invariants.
 """
 
 import collections
@@ -52,9 +54,9 @@ GAUSS_MUTANTS = {'child-map': 'ChildrenTile', 'simplex-moment': 'RefVolume'}
 # leaves per run: name -> (start atoms, operands)
 ALL = ['A', 'C', 'B', 'G', 'D', 'H', 'U', 'W', 'L', 'M', 'R', 'T', 'V', 'P', 'Q', 'AC', 'BG', 'Ac', 'Bc', 'EX', 'EY']
 LEAVES = {
-    'quick': (['A', 'B', 'T', 'L', 'P', 'Q', 'AC', 'Ac', 'EX'], ['C', 'B', 'D', 'W', 'AC', 'EX']),
+    'quick': (['A', 'B', 'T', 'L', 'P', 'Q', 'AC', 'EX'], ['C', 'B', 'D', 'W', 'AC', 'EX']),
     'thorough2': (ALL, ['A', 'C', 'B', 'D', 'W', 'L', 'T', 'Q', 'AC', 'EX']),
-    'thorough3': (['A', 'B', 'L', 'T', 'AC'], ['C', 'B', 'D', 'A', 'AC']),
+    'thorough3': (['A', 'B', 'L', 'AC'], ['C', 'B', 'D', 'AC']),
     'sim': (ALL, ALL),
     'total': (['A'], ['C', 'B']),
     'mutant': (['A', 'B', 'Ac'], ['A', 'C', 'B', 'G', 'D']),
@@ -84,11 +86,14 @@ def plan(tier, seed, tables):
         muts = sorted(SAMPLE_MUTANTS) + sorted(GAUSS_MUTANTS)
         muts = [muts[seed % len(muts)]]
     else:
-        jobs['sample'] = ('MCSampleAlg', dict(cfg='MCSampleAlg.cfg', env=env('thorough2'), coverage=True, workers=4, timeout=2400), True)
+        jobs['gauss'] = ('MCGaussOracle', dict(cfg='MCGaussOracle_thorough.cfg', env=env('gauss'), workers=4, timeout=2400), True)
+        jobs['sample'] = ('MCSampleAlg', dict(cfg='MCSampleAlg.cfg', env=env('thorough2'), workers=4, timeout=2400), True)
         jobs['sample-3'] = ('MCSampleAlg', dict(cfg='MCSampleAlg_thorough.cfg', env=env('thorough3'), workers=4, timeout=2400), True)
-        jobs['sample-sim'] = ('MCSampleAlg', dict(cfg='MCSampleAlg_sim.cfg', env=env('sim'), simulate=dict(num=300), depth=6, seed=seed, workers=2, timeout=900), False)
+        jobs['sample-sim'] = ('MCSampleAlg', dict(cfg='MCSampleAlg_sim.cfg', env=env('sim'), simulate=dict(num=100), depth=6, seed=seed, workers=2, timeout=900), False)
         jobs['sample-total'] = ('MCSampleAlg', dict(cfg='MCSampleAlg_total.cfg', env=env('total'), workers=1), True)
-        jobs['gauss'] = ('MCGaussOracle', dict(cfg='MCGaussOracle_thorough.cfg', env=env('gauss'), coverage=True, workers=4, timeout=2400), True)
+        # TLC's own coverage statistics (expensive) on the small configurations
+        jobs['sample-cov'] = ('MCSampleAlg', dict(cfg='MCSampleAlg.cfg', env=env('quick'), coverage=True, workers=4, timeout=2400), True)
+        jobs['gauss-cov'] = ('MCGaussOracle', dict(cfg='MCGaussOracle_small.cfg', env=env('nogauss'), coverage=True, workers=2), True)
         muts = sorted(SAMPLE_MUTANTS) + sorted(GAUSS_MUTANTS)
     for m in muts:
         if m in SAMPLE_MUTANTS:
@@ -140,8 +145,8 @@ def run(rep):
     rep.lap('tables')
     rep.constants['SampleAlg'] = ('leaves: synthetic base samples with integer coordinates and weights in three spaces (1D, 1D, 2D), sums of two of them, PointsSequence containers (chain, repeat, take, product), '
                                   'custom index, located samples with weights, gauss samples of a structured and of two trimmed topologies, empty samples; '
-                                  '{}').format('<= 2 operations exhaustively on 9 leaves' if quick else
-                                               '<= 2 operations exhaustively on 21 leaves, <= 3 operations on 5 leaves, simulation to 4 operations')
+                                  '{}').format('<= 2 operations exhaustively on 8 leaves' if quick else
+                                               '<= 2 operations exhaustively on 21 leaves, <= 3 operations on 4 leaves, simulation to 4 operations')
     rep.constants['GaussOracle'] = ('references line, triangle, tetrahedron, square, prisms, cube; subsets of children; half-space trims {}; '
                                     'monomials up to degree {} (documented maxima: triangle 7, tetrahedron 8), children/trims up to degree {}').format(
         *(('at 1/2 of line, triangle, square (maxrefine 0, 1)', 9, '4 (3 in 3D)') if quick else ('at 1/4, 1/2, 3/4 in all dimensions (maxrefine 0, 1)', 14, '7 (5 in 3D)')))
@@ -180,14 +185,15 @@ def run(rep):
     # vacuity guard: every action of both machines was taken.  The thorough tier reads TLC's own coverage statistics; the
     # quick tier counts the states each action produced (every emitted state names the operation that created it)
     for name, actions in (('sample', SAMPLE_ACTIONS), ('gauss', GAUSS_ACTIONS)):
+        last = collections.Counter((e['ops']['o'] if 'ops' in e else e['cfg']['op']) for e in results[name].emitted if 'ops' in e or 'moments' in e)
+        cov = {a: (last[ACTION_OP[a]], last[ACTION_OP[a]]) for a in actions}
         if quick:
-            last = collections.Counter((e['ops']['o'] if 'ops' in e else e['cfg']['op']) for e in results[name].emitted if 'ops' in e or 'moments' in e)
-            cov = {a: (last[ACTION_OP[a]], last[ACTION_OP[a]]) for a in actions}
             for a in actions:
                 rep.actions[a] = rep.actions.get(a, 0) + cov[a][1]
-        else:
-            cov = results[name].coverage
         missing = [a for a in actions if cov.get(a, (0, 0))[1] == 0]
+        if not quick:
+            tcov = results[name + '-cov'].coverage
+            missing += [a for a in actions if tcov.get(a, (0, 0))[1] == 0]
         if missing:
             raise RuntimeError('{}: actions never taken: {}'.format(name, missing))
 
@@ -229,10 +235,10 @@ def run(rep):
     rep.extra['nestings_without_elementwise_access'] = len(unsupported)
     rep.extra['shortest_nesting_without_elementwise_access'] = cs.ops_str(min(unsupported, key=lambda b: (b['nops'], len(cs.ops_str(b['ops']))))['ops'])
     # all nestings of at most one operation, the counterexample of Total, and a seeded selection of the deeper ones
-    budget = 320 if quick else 5000
+    budget = 260 if quick else 2500
     first = lambda b: b['nops'] <= 1 or cs.ops_key(b['ops']) == total_key
     shallow = [b for b in states if first(b)]
-    deep = [b for b in states if not first(b)]
+    deep = sorted((b for b in states if not first(b)), key=lambda b: cs.ops_key(b['ops']))     # TLC's emission order is not deterministic
     rng.shuffle(deep)
     # at least a few of the nestings the code cannot evaluate (deterministic known-finding lines)
     deep.sort(key=lambda b: b['canbind'] and b['canint'])
